@@ -141,7 +141,7 @@ _orig_golden = checker.do_golden_runs
 def do_golden_runs():
     r = _orig_golden()
     g = getattr(checker, '__GOLDEN')
-    log('golden', exit=g.exit, out=g.out, err=g.err, timeout=options.args().timeout)
+    log('golden', exit=g.exit, out=g.out, err=g.err, timeout=options.args().timeout, runtime=g.runtime)
     return r
 
 
